@@ -79,6 +79,7 @@ type unitsObs struct {
 	Peak     int    `json:"peak"`
 	Procs    int    `json:"procs"` // len(Processes()) while the burner was inside
 	In       bool   `json:"in"`    // the burner's pid was listed by Processes()
+	Split    bool   `json:"split"` // after AddProc some thread of the (multi-threaded) burner is not in the group
 }
 
 // units <cases.ndjson> <obs.ndjson> <nonce>
@@ -134,6 +135,12 @@ func units1(c unitsCase, nonce string) (o *unitsObs, err error) {
 		cmd.Process.Kill()
 		cmd.Wait()
 		return nil, fmt.Errorf("AddProc: %w", err)
+	}
+	_, thr := l.where(cmd.Process.Pid)
+	for _, c := range l.ctls {
+		if len(thr[c]) != 1 || len(thr[c][0]) != 1 || thr[c][0][0] != "u" {
+			o.Split = true
+		}
 	}
 	if ps, err := g.Processes(); err == nil {
 		o.Procs = len(ps)
